@@ -109,6 +109,21 @@ CHECKS = [
               '__instancecheck__, and the solver shows the parameter and return guards equivalent to those of the evaluated form for all '
               'objects and draws. The call-before-definition clause (forward-reference exception, usable once defined) is driven '
               'concretely for module and closure placements.'),
+    dict(id='C13', engine='G', cat='translation_validation', ref='4/C13',
+         technique='SMT equivalence (XOR unsat) of the wrappers generated by decorating a class vs decorating each of its members by hand',
+         text='Partial claim: for classes generated from one template (plain, class and static methods, property getter and setter, nested '
+              'class, inherited member, dataclass) over enumerated hint pairs and configurations, the wrappers of both routes are captured '
+              'and their parameter and return guards proved equivalent for all argument objects and draws (self / cls positions included). '
+              'Identity / idempotence / descriptor kind / __wrapped__ / name / doc / signature / inherited members / no-op identities are '
+              'concrete side conditions asserted on the same classes and labelled as such in evidence.'),
+    dict(id='C14', engine='G', cat='translation_validation', ref='4/C14',
+         technique='SMT equivalence (XOR unsat) between the checker the API executes after an adversarial history and the checker a freshly imported beartype generates',
+         text='Partial claim ("cached and first-time answers are identical" for door checks): each history script of a catalogue (hash-equal '
+              'unions, Literal look-alikes, Annotated look-alikes, same-named class redefined, hint dropped and its id() reused, '
+              'clear_caches() mid-way, a forward reference that fails first, a failing hint first, similar containers; seeded variations) '
+              'is run for real; the generated function the public API then executes for the target is identified by a profile hook and '
+              'proved equivalent, for all objects and draws, to the one generated by a re-imported copy of beartype with empty caches, '
+              'and to still accept every conforming object.'),
     dict(id='C09', engine='G', cat='translation_validation', ref='4/C09',
          technique='SMT (z3) cost term over item-reading AST nodes with unbounded symbolic container length',
          text='Fast path: the translator attaches a cost to every item read (x[i], next(iter(x)), mapping lookups; len for '
@@ -129,8 +144,6 @@ NOT_APPLICABLE = [
 ]
 
 PENDING = [
-    ('C13', 'planned (Engine G, partial); not yet built in this commit'),
-    ('C14', 'planned (Engine G, partial); not yet built in this commit'),
 ]
 
 
